@@ -168,6 +168,14 @@ Definition limited_read (pre : option kind) (ck : kind) (apply : bool) (max : Z)
             else read_at_most None ck (if apply then max else -1) src rs
   end.
 
+(* A context as the helpers see it: how it ends (cancellation or deadline) and the CAUSE attached to it
+   (context.WithCancelCause / WithDeadlineCause / WithTimeoutCause; None = no cause).  Only the way it ends decides the
+   kind (parallelisation.go DetermineContextError = ConvertContextError(ctx.Err()): Canceled -> cancelled,
+   DeadlineExceeded -> timeout); the cause is data the helpers never look at. *)
+Record ctxinfo := mkCtx { cx_deadline : bool; cx_cause : option (list Z) }.
+Definition kind_of_ctx (c : ctxinfo) : kind := if cx_deadline c then KTimeout else KCancelled.
+Definition pre_of (done_at_call : bool) (c : ctxinfo) : option kind := if done_at_call then Some (kind_of_ctx c) else None.
+
 (* ---------- script classes used by the theorems ---------- *)
 
 (* a source that only delivers data (any chunk sizes, zero-length reads allowed), never fails, never sees the
@@ -409,7 +417,8 @@ Record case := mkCase {
   c_kind : kind;               (* observed: error kind *)
   c_count : Z;                 (* observed: returned count (len(content) for reads) *)
   c_bytes : list Z;            (* observed: content returned / bytes held by the destination *)
-  c_log : list ev              (* observed: log of the instrumented streams *)
+  c_log : list ev;             (* observed: log of the instrumented streams *)
+  c_ck : kind                  (* kind demanded when the context ends during the call: cancelled / timeout *)
 }.
 
 Fixpoint list_eqb (a b : list Z) : bool :=
@@ -441,10 +450,10 @@ Definition agrees (c : case) (r : result) : bool :=
 
 Definition check_case (c : case) : bool :=
   match c_op c with
-  | OpReadAtMost max => agrees c (read_at_most (c_pre c) KCancelled max (c_src c) (c_rs c))
-  | OpCopyData => agrees c (copy_data (c_rf c) (c_pre c) KCancelled (c_src c) (c_rs c) (c_ws c))
-  | OpCopyN n => agrees c (copy_n (c_rf c) (c_pre c) KCancelled n (c_src c) (c_rs c) (c_ws c))
-  | OpLimitedRead apply max size => agrees c (limited_read (c_pre c) KCancelled apply max size (c_src c) (c_rs c))
+  | OpReadAtMost max => agrees c (read_at_most (c_pre c) (c_ck c) max (c_src c) (c_rs c))
+  | OpCopyData => agrees c (copy_data (c_rf c) (c_pre c) (c_ck c) (c_src c) (c_rs c) (c_ws c))
+  | OpCopyN n => agrees c (copy_n (c_rf c) (c_pre c) (c_ck c) n (c_src c) (c_rs c) (c_ws c))
+  | OpLimitedRead apply max size => agrees c (limited_read (c_pre c) (c_ck c) apply max size (c_src c) (c_rs c))
   | OpWalkTotal cb t total => Nat.eqb (ops (walk_entry cb t)) total
   | OpWalkAfter cb t k after => Nat.eqb (ops_after k (walk_entry cb t)) after
   | OpChmodAfter t k after => Nat.eqb (ops_after k (chmod_entry t)) after
